@@ -47,9 +47,11 @@ def pBool (t : String) : Option Bool := if t = "1" then some true else if t = "0
 
 def pPrim (s : String) : Option Op :=
   match s.splitOn " " with
-  | ["add", l, f] => (match pLevel l, pFilter f with | some l, some f => some (.add ⟨l, f, false⟩) | _, _ => none)
+  | ["add", l, f] => (match pLevel l, pFilter f with | some l, some f => some (.add ⟨l, f, false, false⟩) | _, _ => none)
   | ["add", l, f, z] => (match pLevel l, pFilter f, pBool z with
-      | some l, some f, some z => some (.add ⟨l, f, z⟩) | _, _, _ => none)
+      | some l, some f, some z => some (.add ⟨l, f, z, false⟩) | _, _, _ => none)
+  | ["add", l, f, z, k] => (match pLevel l, pFilter f, pBool z, pBool k with
+      | some l, some f, some z, some k => some (.add ⟨l, f, z, k⟩) | _, _, _, _ => none)
   | ["rm", i] => i.toInt?.map .remove
   | ["rmall"] => some .removeAll
   | ["rmbad"] => some .removeBad
